@@ -190,6 +190,21 @@ Theorem c09_metamorphic_ignore_published : forall a b ta tb oa ob,
 Proof. exact (fun a b ta tb oa ob => conj (antitone_code_tp a b ta tb oa ob) (reclaim_code_tp a b ta tb oa ob)). Qed.
 Print Assumptions c09_metamorphic_ignore_published.
 
+(* --- cpu normalization (round 5): Prepare amplifies the published batch-cpu by the ratio of the NodeResource,
+       ONCE however often Prepare runs on the same NodeResource (clause 8, judged on the amounts published by
+       the first and by a repeated Prepare); every other bound is unaffected --- *)
+Theorem c09_norm_published_once : forall r tp b,
+  norm_code r tp (pub_core r tp (run_batch b)) (pub_extra r tp (run_batch b)) = 0.
+Proof. exact pub_norm_code. Qed.
+Print Assumptions c09_norm_published_once.
+
+Theorem c09_norm_core_holds : forall r tp b,
+  input_wf b = true -> tp_nonneg tp = true ->
+  C09_holds b (mask_pub r (pub_core r tp (run_batch b))) /\
+  batch_code false b (mask_pub r (pub_core r tp (run_batch b))) = 0.
+Proof. exact (fun r tp b H1 H2 => conj (pub_core_holds r tp b H1 H2) (pub_core_code r tp b H1 H2)). Qed.
+Print Assumptions c09_norm_core_holds.
+
 (* --- the mid tier --- *)
 Theorem c09_mid_le_threshold : forall m, 0 <= m_cap_cpu m -> 0 <= m_cap_mem m ->
   mid_ok (mid_thr_cpu m) (mid_bound_cpu m) (mid_cpu m) /\
